@@ -221,7 +221,9 @@ def main(argv=None):
 
     # ------------------------------------------------------------ inconclusive rules
     why_inc = []
-    floor = getattr(mod, 'FLOOR', {}).get(tier, 2)
+    # floors of the thorough tier are 3x the quick floors (the thorough budgets are >= 10x the quick ones);
+    # per-module 'thorough' entries are informative only
+    floor = getattr(mod, 'FLOOR', {}).get('quick', 2) * (3 if tier == 'thorough' else 1)
     if not a.replay and not a.limit:
         if ran == 0:
             why_inc.append('no case ran')
@@ -229,7 +231,9 @@ def main(argv=None):
             why_inc.append('only %d distinct non-trivial cases (floor %d)' % (len(nontriv), floor))
         if ran and len(incon) > max(2, 0.02 * ran):
             why_inc.append('%d of %d cases inconclusive, e.g. %s' % (len(incon), ran, incon[0]['why'][:200]))
-        for k, m in getattr(mod, 'REQUIRED', {}).get(tier, {}).items():
+        for k, m in getattr(mod, 'REQUIRED', {}).get('quick', {}).items():
+            if tier == 'thorough' and not k.startswith('exhaustive'):
+                m = 3 * m
             got = counters.get(k, 0)
             if isinstance(got, dict):
                 got = len(got)          # dict counters: number of distinct keys observed
